@@ -368,7 +368,7 @@ pub fn run(tier: Tier) -> Report {
         .flat_map_iter(|(i, it)| {
             let pr = print_program(&it.program);
             let vars = doc_variants(&pr, 6);
-            let nvar = if it.family == "declaration-faults" || it.family == "type-equivalence" || it.family == "scenario-permutations" { 7 } else { 2 };
+            let nvar = if it.family == "declaration-faults" || it.family == "type-equivalence" || (it.family == "scenario-permutations" || progs::always_included(it.family)) { 7 } else { 2 };
             let mut out = vec![];
             for k in 0..nvar {
                 let (layout, gaps) = vars[(i + k) % vars.len()].clone();
